@@ -411,10 +411,12 @@ func cmdCheck(args []string) {
 	var mutRes []MutantResult
 	if *tier == "thorough" && exit == 0 {
 		mutRes = runMutants(*repo, *verif, prop, known, 6)
+		// a miss is a statement about the sensitivity of the machinery, not
+		// about the property on the tree under check: it is printed and
+		// recorded in the evidence (mutants[].caught), the exit code stays
 		for _, m := range mutRes {
 			if !m.Caught {
-				fmt.Printf("SELFTEST-MISS: mutant %s not caught\n", m.Name)
-				exit = 2
+				fmt.Printf("SELFTEST-MISS: mutant %s not caught (%s)\n", m.Name, m.Err)
 			}
 		}
 	}
